@@ -324,6 +324,10 @@ type Info struct {
 func Inspect(node datamodel.Node) (Info, error) {
 	var res Info
 
+	if node.Kind() != datamodel.Kind_List || node.Length() != 2 {
+		return Info{}, fmt.Errorf("expected an envelope of exactly two elements: Signature and SigPayload")
+	}
+
 	signatureNode, err := node.LookupByIndex(0)
 	if err != nil {
 		return Info{}, err
